@@ -1,9 +1,13 @@
 from driver import KaniUnit, VerusUnit, Harness as H
 ID = "C05"
 LEVEL = "proof"
-al = VerusUnit("al_astar", "al_astar", rlimit=60)
-dp = VerusUnit("c01_dispatch", "c01_dispatch", rlimit=60)
-UNITS = [al, dp]
+CORE = "routee-compass-core"
+wit = KaniUnit("c05_wit", CORE, modules=[dict(file=CORE + "/src/algorithm/search/search_instance.rs", src="world.rs"),
+                                          dict(file=CORE + "/src/algorithm/search/search_algorithm.rs", src="c01_wit.rs")], harnesses=[])
+wit.native_witnesses = ["c05_wit_no_path_exactly_when_unreachable"]
+al = VerusUnit("al_astar", "al_astar", rlimit=60, paired_kani=(wit, []))
+dp = VerusUnit("c01_dispatch", "c01_dispatch", rlimit=60, paired_kani=(wit, []))
+UNITS = [al, dp, wit]
 EXPLANATION = ("run_a_star + advance_search under contract: 'no path' is produced only by an exhausted queue with a target, and then (invariant EXP) the "
                "labelled set is closed under every edge the frontier model permitted and does not contain the target; a returned tree contains the target; "
                "without a target the search returns only at queue exhaustion with the closed labelled set; "
